@@ -134,7 +134,11 @@ fn submit(
     let rid = parts[0].to_string();
     let kind = parts[1];
     let unit: u8 = parts[2].parse().unwrap();
-    let timeout = Duration::from_millis(parts[3].parse().unwrap());
+    // `<n>` milliseconds, or `<n>s` seconds (to reach Duration::MAX)
+    let timeout = match parts[3].strip_suffix('s') {
+        Some(secs) => Duration::from_secs(secs.parse().unwrap()),
+        None => Duration::from_millis(parts[3].parse().unwrap()),
+    };
     let param = RequestParam::new(UnitId::new(unit), timeout);
     let comp = Completion {
         log: log.clone(),
